@@ -756,7 +756,22 @@ func runTcCase(c TcAbs, seed int64) TcEv {
 			M.Mutable(reqDesc().Fields().ByName("b"))
 		}
 		if c.Gzip {
-			body = gz(body)
+			// a gzip stream may consist of several members (RFC 1952 2.2; what `cat a.gz b.gz` or a flushing
+			// writer produces): one case in three is cut into 2..3 members at drawn places
+			if len(body) > 1 && r.Intn(3) == 0 {
+				a := 1 + r.Intn(len(body)-1)
+				parts := [][]byte{body[:a], body[a:]}
+				if len(body)-a > 1 && r.Bool() {
+					b := a + 1 + r.Intn(len(body)-a-1)
+					parts = [][]byte{body[:a], body[a:b], body[b:]}
+				}
+				body = nil
+				for _, p := range parts {
+					body = append(body, gz(p)...)
+				}
+			} else {
+				body = gz(body)
+			}
 		}
 	}
 	ev.URL = kind + " " + path + "?" + rawQuery
